@@ -213,6 +213,10 @@ impl DecoderContext {
 //@spec
     ensures r == self.unknown_data,
 //@end
+//@item stun_rs :: mod context > impl DecoderContext > fn key
+//@spec
+    ensures r is Some <==> self.key is Some, r is Some ==> *r->Some_0 == self.key->Some_0,
+//@end
 }
 //@item! stun_rs :: mod context > struct AttributeDecoderContext
 impl<'a> AttributeDecoderContext<'a> {
